@@ -114,6 +114,7 @@ struct Engine {
 	// SIGSEGV at addr while the run is active (signal context): 0 = not the engine's (a crash of the code under test),
 	// 1 = the engine made the page accessible, retry the access, 2 = give up on this run without a verdict (resource budget)
 	virtual int on_fault(void *addr) { return 0; }
+	virtual void on_park(int task) {}                  // task context: the spin heuristic is about to park this task (it re-reads unchanged locations)
 	virtual const char *op_name(int kind) = 0;
 	virtual int op_kind(const std::string &name) = 0;
 	virtual std::vector<Op> simplify(const Op &op) { return {}; }
